@@ -7,6 +7,7 @@ def run(v, tier, replay):
     thorough = tier == "thorough"
     v.assumptions += ["table sizes are read through the verif-tag view VerifTables; cookie-key rotation is triggered through the verif-tag step VerifRotateCookieKey (the 2-minute ticker cannot be waited for)",
                       "hidden-mode staleness uses real time (7.1 s sleeps, run in parallel)"]
+    lib.go_build("c19"); lib.go_build("hsreplay")     # fail fast on build problems
     nun = 0
     fams = ["A", "C"] + (["B", "Ch"] if thorough else ["Ch"])
     for fam in fams:
